@@ -183,6 +183,7 @@ class Inliner:
         self.unknown_tops = sorted(p for p, b in self.bodies.items() if not _CLOSURE_SEG.search(p) and p not in known)
         self.spliced = {}  # unknown top path -> number of splices
         self.devirt = {}  # closure def -> number of devirtualised splices
+        self._subst_rx = {}
         self.consumed = set()  # copies of coroutine bodies that were spliced at their only poll site
         self.log = []
         self.counter = 0
@@ -203,6 +204,55 @@ class Inliner:
                 out.append(c)
                 st.append(c['path'])
         return out
+
+    def generic_subst(self, callee, call_term):
+        gens = callee.get('generics') or []
+        name, c = _callee(call_term)
+        args = (c or {}).get('args') or []
+        if not gens or len(args) != len(gens):
+            return None
+        sub = {}
+        for g, a in zip(gens, args):
+            if g.startswith("'") or g.startswith('<') or not re.match(r'^[A-Za-z_][A-Za-z0-9_]*$', g) or not isinstance(a, str):
+                continue
+            if a != g:
+                sub[g] = a
+        return sub or None
+
+    def apply_subst(self, text, subst):
+        if not subst:
+            return text
+        rx = self._subst_rx.get(tuple(sorted(subst)))
+        if rx is None:
+            rx = re.compile(r'(?<![A-Za-z0-9_:])(' + '|'.join(re.escape(k) for k in sorted(subst, key=len, reverse=True)) + r')(?![A-Za-z0-9_])')
+            self._subst_rx[tuple(sorted(subst))] = rx
+        return rx.sub(lambda m: subst[m.group(1)], text)
+
+    def instantiate(self, blk, subst):
+        """Replace the helper's type parameters in the function constants of a spliced block and resolve trait calls that
+        became calls on a concrete type (`<R as TryFrom<u8>>::try_from` -> `<PublishAckReason as TryFrom<u8>>::try_from`)."""
+        def visit(x):
+            if isinstance(x, dict):
+                c = x.get('c') if isinstance(x.get('c'), dict) else None
+                if c is not None and 'fn' in c:
+                    if isinstance(c.get('args'), list):
+                        c['args'] = [self.apply_subst(a, subst) if isinstance(a, str) else a for a in c['args']]
+                    if isinstance(c.get('ty'), str):
+                        c['ty'] = self.apply_subst(c['ty'], subst)
+                    if c.get('trait') and not c.get('res') and c.get('args'):
+                        targs = [a for a in c['args'][1:] if not a.startswith("'")]
+                        cand = '<%s as %s%s>::%s' % (c['args'][0], c['trait'], ('<%s>' % ', '.join(targs)) if targs else '', c.get('method'))
+                        if cand in self.bodies:
+                            c['res'] = cand
+                            c['res_local'] = True
+                            c['res_kind'] = 'item'
+                for v in x.values():
+                    visit(v)
+            elif isinstance(x, list):
+                for v in x:
+                    visit(v)
+        visit(blk['stmts'])
+        visit(blk['term'])
 
     def upvar_value(self, body, i, depth=0):
         """Value captured as upvar i of a closure / coroutine body: looked up at its (unique) creation site in the parent."""
@@ -245,7 +295,14 @@ class Inliner:
                 self.raw['bodies'].append(nc)
                 self.bodies[nc['path']] = nc
                 self.children.setdefault(nc['parent'], []).append(nc)
-        caller['locals'].extend(copy.deepcopy(callee['locals']))
+        new_locals = copy.deepcopy(callee['locals'])
+        # instantiate the helper's type parameters with the types it is called with (`helper::<PublishAckReason>(..)`)
+        subst = self.generic_subst(callee, t)
+        if subst:
+            for l_ in new_locals:
+                if isinstance(l_.get('ty'), str):
+                    l_['ty'] = self.apply_subst(l_['ty'], subst)
+        caller['locals'].extend(new_locals)
         args = force_args if force_args is not None else t['args']
         pre = []
         for i, a in enumerate(args[:callee['argc']]):
@@ -264,6 +321,8 @@ class Inliner:
             nb = {'cleanup': cb.get('cleanup', False), 'stmts': [_shift(s, loff, boff) for s in cb['stmts']], 'term': _shift_term(cb['term'], loff, boff), 'inl': callee['path']}
             if mapping:
                 _rename_defs(nb, mapping)
+            if subst:
+                self.instantiate(nb, subst)
             tt = nb['term']
             if tt['k'] == 'return':
                 src = {k: tt[k] for k in ('file', 'ln') if k in tt}
@@ -319,7 +378,14 @@ class Inliner:
                         val = {'?'}
             t_ = caller['blocks'][bi]['term']
             if t_['k'] == 'call' and t_.get('dest') and t_['dest']['l'] == ret_slot:
-                val = {'?'}
+                nm_ = _callee(t_)[0] or ''
+                # `expr?` in the helper: the early return is always the failing variant
+                if re.search(r'^<std::result::Result<.*> as std::ops::FromResidual<std::result::Result<std::convert::Infallible, .*>>>::from_residual$', nm_) and not t_['dest'].get('p'):
+                    val = {('var', 'std::result::Result', 1)}
+                elif re.search(r'^<std::option::Option<.*> as std::ops::FromResidual<std::option::Option<std::convert::Infallible>>>::from_residual$', nm_) and not t_['dest'].get('p'):
+                    val = {('var', 'std::option::Option', 0)}
+                else:
+                    val = {'?'}
             return val
         inn = {bi: set() for bi in region}
         out = {bi: set() for bi in region}
@@ -339,12 +405,21 @@ class Inliner:
         return out
 
     def _return_sites(self, caller, boff, n, ret_slot, dest, cont):
-        """(return block, predecessor or None, value set): per way of reaching a return of the spliced helper."""
+        """[(return block, chain, pred or None, value set)]: the ways of reaching a return of the spliced helper with one
+        known value. `chain` lists pass-through blocks (drops of temporaries shared by several returns) between `pred`
+        and the return block; they are replicated for that way."""
         out = self.ret_values(caller, boff, n, ret_slot)
         region = range(boff, boff + n)
-        def single_succ(bi):
+        def succ_list(bi):
             t_ = caller['blocks'][bi]['term']
-            return t_['target'] if t_['k'] in ('goto', 'drop') and isinstance(t_.get('target'), int) else None
+            return [b2 for _, b2 in t_.get('targets', [])] + [t_.get(k) for k in ('target', 'otherwise', 'resume') if isinstance(t_.get(k), int) and not isinstance(t_.get(k), bool)]
+        preds_of = {}
+        for pi in region:
+            for x in succ_list(pi):
+                preds_of.setdefault(x, []).append(pi)
+        def passthrough(bi):
+            b_ = caller['blocks'][bi]
+            return b_['term']['k'] in ('goto', 'drop') and not any(st['k'] == 'assign' and st['lhs']['l'] == ret_slot for st in b_['stmts'])
         sites = []
         for ri in region:
             rb = caller['blocks'][ri]
@@ -352,13 +427,21 @@ class Inliner:
                     and rb['stmts'][-1]['lhs']['l'] == dest and not rb['term'].get('threaded')):
                 continue
             own = any(st['k'] == 'assign' and st['lhs']['l'] == ret_slot for st in rb['stmts'][:-1])
-            preds = [pi for pi in region if single_succ(pi) == ri and pi != ri]
-            allpreds = [pi for pi in region if ri in ([b2 for _, b2 in caller['blocks'][pi]['term'].get('targets', [])] + [caller['blocks'][pi]['term'].get(k) for k in ('target', 'otherwise', 'resume')]) and pi != ri]
-            if own or len(out[ri]) == 1 and (ri == boff or not preds):
-                sites.append((ri, None, out[ri]))
-            elif len(preds) == len(allpreds):
-                for pi in preds:
-                    sites.append((ri, pi, out[pi]))
+            preds = [pi for pi in preds_of.get(ri, []) if pi != ri]
+            if own or (len(out[ri]) == 1 and not preds):
+                sites.append((ri, [], None, out[ri]))
+                continue
+            work = [(pi, []) for pi in sorted(set(preds))]
+            steps = 0
+            while work and steps < 64:
+                steps += 1
+                pi, chain = work.pop()
+                if len(out[pi]) == 1:
+                    sites.append((ri, chain, pi, out[pi]))
+                elif passthrough(pi) and len(chain) < 8:
+                    for q in sorted(set(preds_of.get(pi, []))):
+                        if q != pi and q not in chain:
+                            work.append((q, [pi] + chain))
         return sites
 
     def thread_returns(self, caller, boff, n, ret_slot, dest, cont):
@@ -395,7 +478,7 @@ class Inliner:
             otherwise = tt['otherwise']
         else:
             return
-        for ri, last, vals in self._return_sites(caller, boff, n, ret_slot, dest, cont):
+        for ri, chain, last, vals in self._return_sites(caller, boff, n, ret_slot, dest, cont):
             if len(vals) != 1:
                 continue
             v = next(iter(vals))
@@ -425,8 +508,22 @@ class Inliner:
             else:
                 n1 = {'cleanup': False, 'stmts': copy.deepcopy(rb['stmts']) + copy.deepcopy(cb['stmts']), 'term': term, 'inl': rb.get('inl')}
                 caller['blocks'].append(n1)
+                nxt = len(caller['blocks']) - 1
+                first_old = ri
+                # replicate the shared pass-through blocks for this way (last block of the chain first)
+                for ci in reversed(chain):
+                    cblk = copy.deepcopy(caller['blocks'][ci])
+                    cblk['term'] = dict(cblk['term'], target=nxt)
+                    caller['blocks'].append(cblk)
+                    nxt = len(caller['blocks']) - 1
+                    first_old = ci
                 lb = caller['blocks'][last]
-                lb['term'] = dict(lb['term'], target=len(caller['blocks']) - 1)
+                lt = lb['term']
+                for k_ in ('target', 'otherwise', 'resume'):
+                    if lt.get(k_) == first_old:
+                        lt[k_] = nxt
+                if 'targets' in lt:
+                    lt['targets'] = [[v_, (nxt if b_ == first_old else b_)] for v_, b_ in lt['targets']]
 
     # ------------------------------------------------------------------ driver per caller
     def process(self, caller):
